@@ -469,6 +469,20 @@ func badUnderLockCallsOut(t *table) {
 	t.mu.Unlock()
 }
 
+func badUnderLockSends(t *table, done chan struct{}) {
+	t.mu.Lock()
+	defer t.mu.Unlock()
+	t.rows["a"] = 1
+	done <- struct{}{}
+}
+
+func okUnderLockSendsAfter(t *table, done chan struct{}) {
+	t.mu.Lock()
+	t.rows["a"] = 1
+	t.mu.Unlock()
+	done <- struct{}{}
+}
+
 // ---------------------------------------------------------------- input mutation
 
 func okMutInputCopies(in []int) []int {
